@@ -248,7 +248,7 @@ def plan(tier, seed):
             if tier == "quick" and sk in ("T2",) :
                 continue
             p.append(("driver", dict(skeleton=sk, kind=kind, target=target, n=2)))
-    for sk in ("T1", "T3", "T5", "T2c"):
+    for sk in ("T1", "T3", "T5", "T2c", "TX"):
         p.append(("traffic", dict(skeleton=sk, n=2)))
     # a usage pattern with two devices (partially driven device footprints), also with two devices named alike
     for same in (False, True):
